@@ -259,6 +259,32 @@ def enum_list():
     return _ENUM
 
 
+def timefield_case(rng):
+    """accounting files: one byte of one record's time field set to an extreme value (damaged accounting file)"""
+    import layouts
+    name = rng.choice(sorted(layouts.LAYOUTS))
+    size, so, ss, uo, us, fields, fname, *_ = layouts.LAYOUTS[name]
+    n = rng.randint(2, 6)
+    raw = bytearray()
+    for i in range(n):
+        raw += layouts.make_record(name, 1_600_000_000 + i * 3600, 0, {f: (b"v%02d" % i) for (f, _, _) in fields})
+    k = rng.randrange(n)
+    fld = rng.choice(("sec", "sec", "usec")) if uo is not None else "sec"
+    off, sz = (so, ss) if fld == "sec" else (uo, us)
+    at = k * size + off + rng.randrange(sz)
+    val = rng.choice((0x7F, 0x80, 0xFF))
+    raw[at] = val
+    files = [core.FileSpec(fname, bytes(raw), 1600000000)]
+    valids = []
+    if rng.random() < 0.5:
+        valids = merge.gen_sources(rng, 1, 65536, max_msgs=6, allow_degenerate=False, letter_base=6)
+        valids[0].path = "v0.log"
+        files.insert(rng.randrange(2), core.FileSpec("v0.log", valids[0].stored, 1600000000))
+    argv = ["--color", "never", "-n", "--tz-offset", "+00:00"] + [f.path for f in files]
+    return core.Scenario(files, argv, None, "UTC"), valids, {"fault": "time_field_byte", "layout": name, "record": k, "field": fld,
+                                                            "at": at, "val": val, "base_kind": "utmp", "base_container": "plain"}
+
+
 def sweep_case(rng, j, tier):
     """fixed-record files: one byte set to an extreme value (time fields, type fields, sizes ...)"""
     L = enum_list()
@@ -279,7 +305,9 @@ def sweep_case(rng, j, tier):
 def run_case(seed, i, tier):
     rng = core.rng_for(seed, PROP, i)
     cr = CaseResult()
-    if i % 2 == 1:
+    if i % 8 == 7:
+        scn, valids, fdesc = timefield_case(rng)
+    elif i % 2 == 1:
         scn, valids, fdesc = sweep_case(rng, i // 2, tier)
     else:
         scn, valids, fdesc = build_case(rng)
@@ -377,6 +405,6 @@ ASSUMPTIONS = ["read EIO/EINTR, ENOSPC and EPIPE are not injected (no property p
 
 
 def main(tier):
-    n = 5000 if tier == "quick" else 2 * len(enum_list()) + 20000
+    n = 4000 if tier == "quick" else 2 * len(enum_list()) + 20000
     cap = 500 if tier == "quick" else 7200
     return engine.run_check(PROP, "c07", tier, n, cap, "fault_enumeration", RULE, ASSUMPTIONS)
